@@ -156,6 +156,10 @@ def main(tier, seed):
     plans.append(dict(max_cmds=2 if tier == "quick" else 3, max_edits=1, tz="Pacific/Kiritimati"))
     if tier != "quick":
         plans.append(dict(max_cmds=3, max_edits=0, tz="America/St_Johns"))
+    # ... nor on the calendar: days on which the ISO week-numbering year differs from the year, a leap day, the last seconds of a year
+    import calendar
+    for ymdhms in ((2024, 12, 30, 12, 0, 0), (2027, 1, 1, 0, 0, 1), (2024, 2, 29, 23, 59, 55), (2025, 12, 31, 23, 59, 45), (1999, 12, 31, 23, 59, 55)):
+        plans.append(dict(max_cmds=2, max_edits=0, t0=calendar.timegm(ymdhms + (0, 0, 0))))
     # ... nor on how the root folder is spelled on the command line: '.', 'dir/.', 'dir/', './dir'
     for sp in ("dot", "slashdot", "symlink") + (("slash", "rel") if tier != "quick" else ()):
         plans.append(dict(max_cmds=2 if tier == "quick" else 3, max_edits=0, spell=sp))
